@@ -4,6 +4,7 @@ package main
 
 import (
 	"fmt"
+	"path/filepath"
 	"go/ast"
 	"go/constant"
 	"go/token"
@@ -479,7 +480,7 @@ func (env *Env) resolveType(text string) types.Type {
 	if tp != nil {
 		if pk := p.TPkgs[tp.Path()]; pk != nil {
 			for i, f := range pk.Syntax {
-				if strings.HasSuffix(pk.CompiledGoFiles[i], "contracts_verif.go") {
+				if bn := filepath.Base(pk.CompiledGoFiles[i]); strings.HasPrefix(bn, "contracts") && strings.HasSuffix(bn, "_verif.go") {
 					pos = f.End() - 1
 					if n := len(f.Decls); n > 0 {
 						pos = f.Decls[n-1].End()
@@ -642,6 +643,20 @@ func (env *Env) evalCall(x *CExpr) cval {
 			cfail("fresh of %s", a.t.Sort)
 		}
 		return cval{t: Ge(RootOf(r), env.old.next), ty: boolT}
+	case "allocated":
+		// allocated(x): x is an object of the heap in the state the expression is evaluated in
+		a := arg(0)
+		r := a.t
+		if a.t.Sort == SSlice {
+			r = SArr(a.t)
+		}
+		f := And(Lt(IntLit(0), r), Lt(r, env.st.next))
+		if a.ty != nil {
+			if p, ok := a.ty.Underlying().(*types.Pointer); ok {
+				f = And(f, Eq(RType(r), tagOf(p.Elem())))
+			}
+		}
+		return cval{t: f, ty: boolT}
 	case "isold":
 		a := arg(0)
 		r := a.t
@@ -1101,6 +1116,9 @@ type specDef struct {
 
 var specDefs = map[*SpecFun]*specDef{}
 
+// specUnfoldDepth: rounds of unfolding of recursive specification functions at ground applications.
+var specUnfoldDepth = 3
+
 func (e *Exec) specPkg(sf *SpecFun) *types.Package {
 	for path, tp := range e.P.TPkgs {
 		if strings.HasPrefix(path, repoModule) && tp.Name == sf.Pkg {
@@ -1168,16 +1186,15 @@ func (e *Exec) defineSpec(sf *SpecFun) *specDef {
 			params = append(params, paramLeaf(r))
 		}
 		params = append(params, d.params...)
-		TS.recFuns[d.smt] = &RecFun{Name: d.smt, Params: params, Ret: d.ret, Body: body.t}
-		found := false
-		for _, n := range TS.recFunOrder {
-			if n == d.smt {
-				found = true
-			}
+		// defining equation, unfolded at ground applications (two levels) instead of define-fun-rec
+		var ss []Sort
+		for _, p := range params {
+			ss = append(ss, p.Sort)
 		}
-		if !found {
-			TS.recFunOrder = append(TS.recFunOrder, d.smt)
-		}
+		delete(TS.decls, smtName(d.smt))
+		DeclFun(d.smt, ss, d.ret)
+		app := App(d.smt, d.ret, params...)
+		SetInstAxiom(d.smt, params, app, Eq(app, body.t), specUnfoldDepth)
 		if strings.Join(d.reads, ",") == before && iter > 0 {
 			break
 		}
@@ -1203,14 +1220,14 @@ type paramState struct{ st *State }
 
 func newParamState() *paramState {
 	epochCounter++
-	st := &State{comps: map[string]*Term{}, sorts: map[string]Sort{}, epoch: -epochCounter}
+	st := &State{comps: map[string]*Term{}, sorts: map[string]Sort{}, epoch: -epochCounter, paramMode: true, paramReads: map[string]bool{}}
 	st.next = TS.intern(&Term{Name: "hp$next", Sort: SInt, flags: flagHasBound})
 	return &paramState{st: st}
 }
 
 func (ps *paramState) reads() []string {
 	var out []string
-	for k := range ps.st.comps {
+	for k := range ps.st.paramReads {
 		out = append(out, k)
 	}
 	sort.Strings(out)
